@@ -211,8 +211,9 @@ def main(argv=None):
         "verdict": "violated" if new_violations else (
             "inconclusive" if inconclusive else "held"),
     }
-    os.makedirs(os.path.join(VERIF_ROOT, "evidence"), exist_ok=True)
-    ev_path = os.path.join(VERIF_ROOT, "evidence", f"{prop}.json")
+    ev_dir = os.environ.get("VERIF_EVIDENCE_DIR") or os.path.join(VERIF_ROOT, "evidence")
+    os.makedirs(ev_dir, exist_ok=True)
+    ev_path = os.path.join(ev_dir, f"{prop}.json")
     try:
         schema_path = "/root/.vp/EVIDENCE.schema.json"
         if os.path.exists(schema_path) and not inconclusive:
